@@ -15,3 +15,5 @@ def run(ctx):
     )
     r.not_decided = ["records of length 0", "Seq slicing (T3)"]
     run_kernels(ctx, ["K3", "K4", "K3carry", "K5"], "C13")
+    from ..rules_ast import record_instance_state_rule
+    ctx.guard(record_instance_state_rule, ctx, "C13.no-derived-state", ["__rshift__", "__lshift__"])
